@@ -1,6 +1,6 @@
 #!/bin/sh
 # tools/all_checks.sh [tier] : every registered check once on the current tree (rewrites evidence/)
-cd /verif
+cd "$(dirname "$0")/.."
 T=${1:-quick}
 for c in C01 C02 C03 C04 C05 C06 C07 C08 C09 C10 C11 C12 C13 C14 C15 C16 C17 C18 C19 C20; do
   s=$(date +%s); out=$(./check $c --tier $T 2>&1); rc=$?
